@@ -32,7 +32,7 @@ pub fn install_logger() {
         }
         fn flush(&self) {}
     }
-    if cfg!(feature = "libsecp") {
+    if !cfg!(feature = "plainprofile") {
         static SINK: Sink = Sink;
         if log::set_logger(&SINK).is_ok() {
             log::set_max_level(log::LevelFilter::Trace);
@@ -177,6 +177,12 @@ impl CallRes {
 
 /// An `Encodable` user type emitting an arbitrary well-formed item.
 pub struct ItemEnc(pub Vec<u8>);
+/// the record behind `TVal::Record`
+pub fn example_record() -> &'static Enr<k256::ecdsa::SigningKey> {
+    static R: std::sync::OnceLock<Enr<k256::ecdsa::SigningKey>> = std::sync::OnceLock::new();
+    R.get_or_init(|| Enr::decode(&mut crate::case::example_record_bytes()).expect("the committed example record decodes"))
+}
+
 impl Encodable for ItemEnc {
     fn encode(&self, out: &mut dyn bytes::BufMut) {
         out.put_slice(&self.0);
@@ -207,6 +213,8 @@ fn insert_tval<K: Fam>(e: &mut Enr<K>, key: &[u8], v: &TVal, k: &K) -> Result<Op
         }
         TVal::Item(i) => e.insert(key, &ItemEnc(rlp::encode(i)), k),
         TVal::Raw(b) => e.insert(key, &ItemEnc(b.clone()), k),
+        TVal::Record { list: false } => e.insert(key, example_record(), k),
+        TVal::Record { list: true } => e.insert(key, &vec![example_record().clone(), example_record().clone()], k),
     }
 }
 
@@ -346,6 +354,8 @@ fn b_tval<K: Fam>(b: &mut enr::Builder<K>, key: &[u8], v: &TVal) {
         }
         TVal::Item(i) => b.add_value(key, &ItemEnc(rlp::encode(i))),
         TVal::Raw(x) => b.add_value(key, &ItemEnc(x.clone())),
+        TVal::Record { list: false } => b.add_value(key, example_record()),
+        TVal::Record { list: true } => b.add_value(key, &vec![example_record().clone(), example_record().clone()]),
     };
 }
 
@@ -596,7 +606,7 @@ pub fn run_history<V: Visitor>(h: &History, force_fault: bool, v: &mut V) -> Res
         FamId::Ed => go!(ed25519_dalek::SigningKey),
         FamId::CombinedSecp | FamId::CombinedEd => go!(enr::CombinedKey),
         FamId::Var | FamId::Wide => go!(VarKey),
-        FamId::Tiny | FamId::Mid | FamId::Nano | FamId::Big => go!(crate::keys::TinyKey),
+        FamId::Tiny | FamId::Mid | FamId::Nano | FamId::Big | FamId::Clash => go!(crate::keys::TinyKey),
     }
 }
 
@@ -703,6 +713,6 @@ pub fn run_blind(h: &History, upto: usize, order: u8) -> Result<Option<(Vec<Call
         FamId::Ed => run_blind_typed::<ed25519_dalek::SigningKey>(h, upto, order),
         FamId::CombinedSecp | FamId::CombinedEd => run_blind_typed::<enr::CombinedKey>(h, upto, order),
         FamId::Var | FamId::Wide => run_blind_typed::<VarKey>(h, upto, order),
-        FamId::Tiny | FamId::Mid | FamId::Nano | FamId::Big => run_blind_typed::<crate::keys::TinyKey>(h, upto, order),
+        FamId::Tiny | FamId::Mid | FamId::Nano | FamId::Big | FamId::Clash => run_blind_typed::<crate::keys::TinyKey>(h, upto, order),
     }
 }
